@@ -1015,11 +1015,12 @@ def functions_of(module):
     return gtirb_functions.Function.build_functions(module)
 
 
-def register(case: Case, built: Built, ctx, record=None, edits=None):
+def register(case: Case, built: Built, ctx, record=None, edits=None, order=None):
     from gtirb_rewriting import AllBlocksScope, BlockPosition, SingleBlockScope
 
     done_scopes = set()
-    for ed in sorted(edits if edits is not None else case.edits, key=lambda e: e.reg):
+    seq = order if order is not None else sorted(edits if edits is not None else case.edits, key=lambda e: e.reg)
+    for ed in seq:
         if ed.scope is not None:
             if ed.reg in done_scopes:
                 continue
@@ -1041,11 +1042,11 @@ def register(case: Case, built: Built, ctx, record=None, edits=None):
             ctx.delete_at(blk, off, ln, retarget_to_proxy=ed.proxy)
 
 
-def rewrite(case: Case, built: Built, record=None):
+def rewrite(case: Case, built: Built, record=None, order=None):
     import gtirb_rewriting
 
     ctx = gtirb_rewriting.RewritingContext(built.module, functions_of(built.module))
-    register(case, built, ctx, record)
+    register(case, built, ctx, record, order=order)
     ctx.apply()
 
 
